@@ -23,9 +23,9 @@ use std::sync::Arc;
 pub struct Workload {
     pub threads: Vec<Vec<Vec<i64>>>, // thread -> ops -> [code, a, b]
 }
-pub const OPS: [&str; 16] = [
+pub const OPS: [&str; 17] = [
     "create_a_same", "create_a_old_caller", "create_a_new_caller", "create_b", "call", "call_cb", "call_mk", "call_take", "shared_inc", "shared_write", "shared_read", "shared_append", "lib",
-    "create_incompatible", "lib_missing", "lib_noiface",
+    "create_incompatible", "lib_missing", "lib_noiface", "plain_schema",
 ];
 pub fn opcode(n: &str) -> i64 {
     OPS.iter().position(|x| *x == n).unwrap_or(4) as i64
@@ -86,6 +86,9 @@ pub fn gen_workload(seed: u64, allow_lib: bool) -> Workload {
     }
     if fam_nested {
         pool.extend(["call_cb", "call_mk", "call_take"]);
+    }
+    if rng.chance(1, 4) {
+        pool.extend(["plain_schema"]);
     }
     if fam_lib {
         pool.extend(["lib", "lib"]);
@@ -177,7 +180,7 @@ pub static LIB_PATH: std::sync::OnceLock<String> = std::sync::OnceLock::new();
 pub static REACH_TEMPLATE_CONTENDED: AtomicU64 = AtomicU64::new(0);
 pub static EXECUTIONS: AtomicU64 = AtomicU64::new(0);
 
-pub fn run_thread(tid: usize, ops: &[Vec<i64>], shared: &Arc<AbiConnection<dyn Shared>>, tester: &Arc<std::sync::Mutex<LinearizabilityTester<usize, Model>>>) -> Vec<String> {
+pub fn run_thread(tid: usize, ops: &[Vec<i64>], shared: &Option<Arc<AbiConnection<dyn Shared>>>, tester: &Arc<std::sync::Mutex<LinearizabilityTester<usize, Model>>>) -> Vec<String> {
     let mut out = Vec::new();
     let mut conns: Vec<Conn> = Vec::new();
     for (i, op) in ops.iter().enumerate() {
@@ -234,6 +237,14 @@ pub fn run_thread(tid: usize, ops: &[Vec<i64>], shared: &Arc<AbiConnection<dyn S
                     Err(e) => format!("missing lib: error {}", format!("{:?}", e).chars().take(24).collect::<String>()),
                 });
             }
+            "plain_schema" => {
+                // ordinary savefile use next to the ABI: saving a value with its schema touches the same process-wide,
+                // lazily initialised state (type layout probes) that a first negotiation reads
+                let v = (format!("s{}", b), vec![b as u32, 7], a as u8);
+                let bytes = savefile::save_to_mem(0, &v).expect("save_to_mem");
+                let back: (String, Vec<u32>, u8) = savefile::load_from_mem(&bytes, 0).expect("load_from_mem");
+                out.push(format!("plain {} {}", bytes.len(), back == v));
+            }
             "create_b" => {
                 let c = AbiConnection::<dyn IfB>::from_boxed_trait(Box::new(ImplB)).expect("create B");
                 conns.push(Conn::B(c));
@@ -289,6 +300,10 @@ pub fn run_thread(tid: usize, ops: &[Vec<i64>], shared: &Arc<AbiConnection<dyn S
                 out.push(r);
             }
             "shared_inc" | "shared_write" | "shared_read" | "shared_append" => {
+                let Some(shared) = shared.as_ref() else {
+                    out.push("noop".into());
+                    continue;
+                };
                 let (sop, uniq) = match name {
                     "shared_inc" => (SOp::Inc, 0),
                     "shared_write" => {
@@ -359,7 +374,14 @@ pub fn scenario(w: &Workload, sequential: bool) -> Outcome {
     #[cfg(not(simconc_std))]
     savefile_abi::__verif_reset_caches();
     EXECUTIONS.fetch_add(1, Ordering::Relaxed);
-    let shared: Arc<AbiConnection<dyn Shared>> = Arc::new(AbiConnection::<dyn Shared>::from_boxed_trait(Box::new(SharedImpl { st: SMutex::new(SharedState::default()) })).expect("shared"));
+    // the shared connection exists before the threads start - but only if some thread uses it: a workload without
+    // shared operations leaves EVERY first use (of the caches, of lazily probed type layouts) to the threads themselves
+    let uses_shared = w.threads.iter().flatten().any(|o| OPS[(o[0] as usize) % OPS.len()].starts_with("shared"));
+    let shared: Option<Arc<AbiConnection<dyn Shared>>> = if uses_shared {
+        Some(Arc::new(AbiConnection::<dyn Shared>::from_boxed_trait(Box::new(SharedImpl { st: SMutex::new(SharedState::default()) })).expect("shared")))
+    } else {
+        None
+    };
     let tester = Arc::new(std::sync::Mutex::new(LinearizabilityTester::new(Model::default())));
     let mut per_thread = Vec::new();
     if sequential {
